@@ -61,6 +61,7 @@ fn parse_tier(s: Option<&String>) -> Tier {
 
 fn main() {
     simrng::install_panic_hook();
+    simrng::install_sched_hooks();
     let args: Vec<String> = std::env::args().collect();
     let code = match args.get(1).map(|s| s.as_str()) {
         Some("selftest") => match refmodel::selftest() {
